@@ -246,45 +246,8 @@ func c09Sig(g *gast.Grammar, variant []string, d diff) []string {
 	if d.field != "variant-not-built" || !strings.Contains(got, "redeclared in this block") {
 		return nil
 	}
-	labels := func(r *gast.Rule) map[string]bool {
-		m := map[string]bool{}
-		gast.Walk(r.Expr, func(e *gast.Expr) {
-			if e.Kind == gast.Labeled {
-				m[e.Label] = true
-			}
-		})
-		return m
-	}
-	for _, leaf := range g.Rules {
-		isLeaf := true
-		gast.Walk(leaf.Expr, func(e *gast.Expr) {
-			if e.Kind == gast.RuleRef {
-				isLeaf = false
-			}
-		})
-		if !isLeaf {
-			continue
-		}
-		ll := labels(leaf)
-		for _, host := range g.Rules {
-			if host == leaf {
-				continue
-			}
-			refs := false
-			gast.Walk(host.Expr, func(e *gast.Expr) {
-				if e.Kind == gast.RuleRef && e.Name == leaf.Name {
-					refs = true
-				}
-			})
-			if !refs {
-				continue
-			}
-			for l := range labels(host) {
-				if ll[l] {
-					return []string{"F07-inline-label-clash"}
-				}
-			}
-		}
+	if gast.InlineClash(g) {
+		return []string{"F07-inline-label-clash"}
 	}
 	return nil
 }
